@@ -1,5 +1,5 @@
 SPECIFICATION Spec
-CONSTANTS Mode = "complex"  Variant = "ok"  Family = "sweep"  List = { }  Steps = 2  PairMod = 1
+CONSTANTS Mode = "complex"  Variant = "ok"  Family = "list"  List = { 1090112, 2130106, 3081201 }  Steps = 2  PairMod = 1
           Extra = { 1002 }
 INVARIANT TypeOK
 INVARIANT RealStaysReal
